@@ -57,6 +57,7 @@ def run(ctx):
     C04.wire_mul(ctx, facts)
     downgrade_users(ctx, facts)
     C04.order_prf(ctx, facts)          # validate_record precedes the reveals of the PRF
+    C04.fresh_key(ctx, facts)          # a fresh MAC key per validation batch
     from rules import shufalg, C05, C15
     shufalg.tags(ctx, facts, "TAG")    # what the shuffle verification hashes per row; keys ++ ONE
     C05.key_cover(ctx, facts)          # one MAC key per 32-bit word of the row
